@@ -49,11 +49,13 @@ def find_class(lines, cls):
     raise NotReached(f'class {cls}')
 
 
-def extract(lines, name, lo=0, hi=None):
+def extract(lines, name, lo=0, hi=None, top=False):
     hi = len(lines) if hi is None else hi
     pat = re.compile(DEF_RE.format(name=re.escape(name)))
     for i in range(lo, hi):
         m = pat.match(lines[i])
+        if m and top and m.group(1):
+            continue        # a method, not the module-level function
         if m:
             ind = len(m.group(1))
             j = i + 1
@@ -334,3 +336,193 @@ class Model:
 
     def node_of(self, f):
         return f.node
+
+
+# ======================================================================
+# cudd_zdd.pyx: the hand-written ZDD recursions on a structural model
+# ======================================================================
+ZDD_FUNCTIONS = [
+    '_find_or_add',
+    '_forall_cache_id', '_forall', '_forall_root', '_c_forall',
+    '_exist_cache_id', '_exist', '_exist_root', '_c_exist',
+    '_disjoin_cache_id', '_disjoin', '_disjoin_root', '_c_disjoin',
+    '_conjoin_cache_id', '_conjoin', '_conjoin_root', '_c_conjoin',
+    '_compose', '_compose_root', '_c_compose',
+    '_dict_to_zdd',
+]
+
+CAST_RE = re.compile(r'<\s*[A-Za-z_][\w\.]*(?:\s*\*)*\s*>')
+
+
+def transliterate_c(block):
+    """As `transliterate`, plus: C-typed parameters `Type *name` ->
+    `name`, exception specifications after `)` dropped, C casts `<T>`
+    removed."""
+    out = []
+    in_sig = True
+    for k, l in enumerate(block):
+        if k == 0:
+            l = re.sub(r'^(\s*)(?:cpdef|cdef|def)\s+(?:[\w\.\*]+\s+)?(\w+)\($',
+                       r'\1def \2(', l)
+        elif in_sig:
+            m = re.match(r'^(\s*)[A-Za-z_]\w*\s*\*\s*(\w+)\s*(,?)\s*$', l)
+            if m:
+                l = f'{m.group(1)}{m.group(2)}{m.group(3)}'
+            m = re.match(r'^(.*\))\s*(?:except\??\s*\w+|noexcept)\s*:\s*$', l)
+            if m:
+                l = f'{m.group(1)}:'
+                in_sig = False
+            elif re.match(r'^.*\)\s*(->[^:]*)?:\s*$', l):
+                in_sig = False
+        elif re.match(r'^\s*cdef\s', l):
+            continue
+        l = CAST_RE.sub('', l)
+        l = re.sub(r'\bNULL\b', 'None', l)
+        out.append(l)
+    src = textwrap.dedent('\n'.join(out))
+    # a body that consists of a docstring only is fine in Python
+    return src
+
+
+class ZddModel:
+    """cudd_zdd.pyx module-level recursions over `zddlib`."""
+
+    def __init__(self, n=3):
+        from . import zddlib
+        import dd._utils as _utils
+        self.zddlib = zddlib
+        self.n = n
+        self.names = NAMES[:n]
+        self.lines = read('cudd_zdd')
+        self.reached, self.not_reached = [], []
+        self.dealloc_errors = 0
+        self.new_manager()
+        self._compile(_utils)
+
+    def new_manager(self):
+        self.mgr = self.zddlib.Manager(self.n)
+        if hasattr(self, 'env'):
+            self.env.update(self.zddlib.environment(self.mgr))
+            self.Z.manager = self.mgr
+        return self.mgr
+
+    def _compile(self, _utils):
+        model = self
+        env = dict(_utils=_utils, __builtins__=__builtins__)
+        env.update(self.zddlib.environment(self.mgr))
+        self.env = env
+        flo, fhi = find_class(self.lines, 'Function')
+        fmeth = {}
+        for m in ('init', '__dealloc__'):
+            try:
+                src = transliterate_c(extract(self.lines, m, flo, fhi))
+                ns = env
+                exec(compile('from __future__ import annotations\n' + src,
+                             f'<zdd.Function.{m}>', 'exec'), ns)
+                fmeth[m] = ns[m]
+                self.reached.append(f'Function.{m}')
+            except (NotReached, SyntaxError) as e:
+                self.not_reached.append(f'Function.{m}: {e}')
+
+        class Function:
+            def __init__(self):
+                self._ref = 0
+                self.node = None
+                self.bdd = None
+                self.zdd = None
+                self.manager = None
+
+            def init(self, node, zdd):
+                return fmeth['init'](self, node, zdd)
+
+            @property
+            def ref(self):
+                return self.node.ref
+
+            def __del__(self):
+                try:
+                    fmeth['__dealloc__'](self)
+                except Exception as e:
+                    model.dealloc_errors += 1
+                    model.last_dealloc_error = repr(e)
+        self.Function = Function
+        env['Function'] = Function
+        try:
+            src = transliterate_c(extract(self.lines, 'wrap', top=True))
+            exec(compile('from __future__ import annotations\n' + src,
+                         '<zdd.wrap>', 'exec'), env)
+            self.wrap = env['wrap']
+            self.reached.append('wrap')
+        except (NotReached, SyntaxError) as e:
+            self.not_reached.append(f'wrap: {e}')
+            raise NotReached('wrap')
+        names = self.names
+
+        class Z:
+            """Mock of the ZDD manager object (trusted, written from the
+            docstrings of the corresponding methods)."""
+
+            def __init__(z):
+                z.manager = model.mgr
+                z.vars = set(names)
+                z._index_of_var = {x: j for j, x in enumerate(names)}
+
+            def _number_of_cudd_vars(z):
+                return len(names)
+
+            def level_of_var(z, var):
+                return names.index(var)
+
+            def var_at_level(z, level):
+                return names[level]
+
+            def var(z, var):
+                t = tt.var(model.n, names.index(var))
+                return model.fn(t)
+
+            @property
+            def true_node(z):
+                # the constant node (not the universe `ZDD.true`)
+                return model.wrap(z, model.mgr.one)
+
+            @property
+            def false(z):
+                return model.wrap(z, model.mgr.zero)
+
+            def find_or_add(z, var, low, high):
+                j = names.index(var)
+                r = model.mgr.get_node(j, high.node, low.node)
+                return model.wrap(z, r)
+        self.Z = Z()
+        env['ZDD'] = Z
+        for f in ZDD_FUNCTIONS:
+            try:
+                src = transliterate_c(extract(self.lines, f, top=True))
+                exec(compile('from __future__ import annotations\n' + src,
+                             f'<zdd.{f}>', 'exec'), env)
+                self.reached.append(f)
+            except (NotReached, SyntaxError) as e:
+                self.not_reached.append(f'{f}: {e}')
+
+        # unique-table faults are injected only inside the recursion roots
+        for root in ('_exist_root', '_forall_root', '_disjoin_root',
+                     '_conjoin_root', '_compose_root'):
+            if root in env:
+                env[root] = self._armed(env[root])
+
+    def _armed(self, fn):
+        def wrapper(*a):
+            m = self.mgr
+            m.armed = True
+            try:
+                return fn(*a)
+            finally:
+                m.armed = False
+        return wrapper
+
+    def fn(self, fam):
+        node = self.mgr.node_for(fam)
+        return self.wrap(self.Z, node)
+
+    def call(self, name, *args):
+        return self.env[name](*args)
